@@ -768,9 +768,11 @@ class Run:
             cands = [(oid, key) for oid in live for key in w.ent_rel[sh.objs[oid]['ent']] if w.sides[key]['coll']]
             if cands:
                 oid, key = rng.choice(cands)
+                own = w.schema['rels'][key[0]]['sym'] and rng.random() < 0.4          # the owner itself in the pool of a symmetric collection
                 tgt = [x for x in self.usable(w.sides[w.rev(key)]['ent']) if not (w.schema['rels'][key[0]]['sym'] and x == oid)]
-                if tgt:
-                    pool = sorted(set(rng.choice(tgt) for _ in range(2)))
+                if tgt or own:
+                    pool = sorted(set([rng.choice(tgt) for _ in range(2)] if tgt else []) | ({oid} if own else set()))
+                    if own: self.count('gen:toggle-burst:symmetric-owner-in-pool')
                     burst = []
                     for _ in range(rng.choice([3, 3, 4])):
                         kk = rng.choice(['add', 'add', 'remove', 'set', 'set', 'clear'])
@@ -868,7 +870,9 @@ class Run:
                     if w.schema['rels'][key[0]]['sym']: tgt = [x for x in tgt if x != oid]
                     if rng.random() < 0.3 or not tgt: return {'k': 'set_ref', 'o': oid, 'key': list(key), 'v': None, 'rs': rs}
                     return {'k': 'set_ref', 'o': oid, 'key': list(key), 'v': rng.choice(tgt), 'rs': rs}
-                if w.schema['rels'][key[0]]['sym']: tgt = [x for x in tgt if x != oid]
+                # a symmetric collection may hold its own owner (both ends of the link are the SAME SetData): in a third of the calls it is a candidate
+                if w.schema['rels'][key[0]]['sym'] and rng.random() < 0.67: tgt = [x for x in tgt if x != oid]
+                elif w.schema['rels'][key[0]]['sym']: tgt = tgt + [oid] * 2 if oid in tgt else tgt; self.count('gen:symmetric-owner-as-candidate')
                 cur = sorted(x for x in sh.partners(oid, key) if x in tgt)
                 k = rng.choice(['add', 'add', 'add', 'remove', 'remove', 'remove', 'set', 'clear'])
                 if k == 'clear': return {'k': 'coll_clear', 'o': oid, 'key': list(key), 'rs': rs}
